@@ -50,6 +50,15 @@ CHECKS.update({
              ref="4 C20", note="Trusted base: the state model in harness/vcheck/src/c20.rs; the claim (from the property) that each operation touches the single global atomic at most once, which makes operation-granularity interleavings complete; std threads and channels."),
 })
 
+CHECKS.update({
+ "C06": dict(tech="property-based testing / fuzzing of the FEN parser and builder: byte-string and structure-aware generators with a validity predicate oracle (proptest; libFuzzer target in thorough)",
+             text="Exploration: seven generators (raw bytes, token soup, field-structured soup, canonical FENs with 1-4 edits, well-formed but semantically wrong FENs by construction, canonical FENs of reachable positions, builder scripts) drive parse_fen / str::parse / BoardBuilder under catch_unwind; every accepted board is read back and must satisfy the playability predicate clause by clause; reachable positions must be accepted and equal the lockstep board. Acceptance rate per generator is in evidence.",
+             ref="4 C06", note=LEVEL_NOTE_REF),
+ "C10": dict(tech="model-based (stateful) property testing: generated iterator-operation sequences against a set model with admissible-fork handling of two recorded findings",
+             text="Exploration: generated op lists (next, len/is_empty/size_hint, set_mask, remove, remove_move, clone, count, final cover under complementary masks) on positions reached by generated playouts, legals() and legals_masked() starts, compared after every op with the set model R/M built from the reference legal moves. Divergences are violations unless the history matches one of the two open findings recorded in known_findings.json (evaluated on the history; 60% of cases avoid them by construction so that the search continues behind them).",
+             ref="4 C10", note=LEVEL_NOTE_REF + " Known findings D5i/D5ii (open) are replayed strictly on every run and reported as KNOWN-FINDING lines."),
+})
+
 NOT_YET = {
 }
 
